@@ -1,6 +1,7 @@
 import Driver.Util
 import DiskfsModel.Model.MetaCodec
 import DiskfsModel.Model.Ext4.InodeCodec
+import DiskfsModel.Model.Ext4.InodeAttrBytes
 import DiskfsModel.Generated.Meta
 namespace Driver.Meta
 open Diskfs Driver Diskfs.Meta Diskfs.Ext4.InodeCodec
@@ -16,6 +17,19 @@ def fatdt (args : List String) : String :=
   let (d, t) := fatPack c
   let u := fatUnpack d t
   s!"d={d}\tt={t}\tu={u.year}-{u.month}-{u.day}-{u.hour}-{u.minute}-{u.second}"
+
+def civilOf (s : String) : Civil :=
+  match (s.splitOn "-").map String.toNat! with
+  | [y, mo, d, h, mi, se] => ⟨y, mo, d, h, mi, se⟩
+  | _ => ⟨0, 0, 0, 0, 0, 0⟩
+
+def civilStr (c : Civil) : String := s!"{c.year}-{c.month}-{c.day}-{c.hour}-{c.minute}-{c.second}"
+
+/-- meta.fatchtimes c=<civil> a=<civil> m=<civil> → the entry's three stamps after encode + parse -/
+def fatchtimes (args : List String) : String :=
+  let g := fun k => civilOf ((arg args k).getD "")
+  let d := fatTimesDec (fatTimesEnc ⟨g "c", g "m", g "a"⟩)
+  s!"cr={civilStr d.create}\tmo={civilStr d.modify}\tac={civilStr d.access}"
 
 def fatattr (args : List String) : String :=
   let v := n args "v"
@@ -44,6 +58,21 @@ def ext4dec (args : List String) : String :=
     n args "mtimeLo", n args "gidLo", n args "links", n args "flags", n args "sizeHi", n args "uidHi", n args "gidHi",
     n args "ctimeExtra", n args "mtimeExtra", n args "atimeExtra", n args "crtimeLo", n args "crtimeExtra"⟩
   s!"a={attrsStr (dec w)}"
+
+/-- meta.ext4frame op=chmod|chown|chtimes before=<inode record, hex> + the setter's arguments (uid/gid -1: unchanged)
+    → the record afterwards with the checksum fields blanked, and the attributes it decodes to -/
+def ext4frame (args : List String) : String :=
+  match argHex args "before" with
+  | none => "bad-input"
+  | some b =>
+    let opt := fun (k : String) => let v := i args k; if v < 0 then none else some v.toNat
+    let after :=
+      match (arg args "op").getD "" with
+      | "chmod" => chmodBytes b (n args "perm")
+      | "chown" => chownBytes b (opt "uid") (opt "gid")
+      | "chtimes" => chtimesBytes b (ts args "cr") (ts args "at") (ts args "mt")
+      | _ => b
+    s!"after={toHex (blankCsum after)}\tattrs={attrsStr (attrsOf after)}"
 
 def goMode (args : List String) : GoMode := ⟨n args "perm", n args "su" == 1, n args "sg" == 1, n args "st" == 1⟩
 def goModeStr (m : GoMode) : String := s!"{m.perm}/{bn m.setuid}{bn m.setgid}{bn m.sticky}"
@@ -84,8 +113,10 @@ def main : IO Unit := Driver.runLoop fun op args =>
   match op with
   | "meta.fatdt" => Driver.Meta.fatdt args
   | "meta.fatattr" => Driver.Meta.fatattr args
+  | "meta.fatchtimes" => Driver.Meta.fatchtimes args
   | "meta.ext4enc" => Driver.Meta.ext4enc args
   | "meta.ext4dec" => Driver.Meta.ext4dec args
+  | "meta.ext4frame" => Driver.Meta.ext4frame args
   | "meta.sqhdr" => Driver.Meta.sqhdr args
   | "meta.sqids" => Driver.Meta.sqids args
   | "meta.px" => Driver.Meta.px args
